@@ -10,7 +10,7 @@
 (*  "filter"  the per-line state machine of eliot.filter over streams of JSON lines and expression classes.          *)
 (*                                                                                                                  *)
 (* TLC enumerates every case, checks the invariants (properties of the rules themselves) and prints                  *)
-(* (case, expected outcome) records; harness/checks_c20.py instantiates every record with concrete witnesses, runs   *)
+(* (case, expected outcome) records (through ToString, so that each record is one output line); harness/checks_c20.py instantiates every record with concrete witnesses, runs   *)
 (* the real functions / command-line entry points and compares what they did with the record.                        *)
 EXTENDS Naturals, Sequences, FiniteSets, TLC
 
@@ -25,9 +25,9 @@ VARIABLES case, pos, out, done
 vars == <<case, pos, out, done>>
 
 Range(s) == {s[i] : i \in DOMAIN s}
-RECURSIVE SortSeq(_)
-SortSeq(S) == IF S = {} THEN <<>>
-              ELSE LET m == CHOOSE x \in S : \A y \in S : x <= y IN <<m>> \o SortSeq(S \ {m})
+RECURSIVE AscSeq(_)
+AscSeq(S) == IF S = {} THEN <<>>
+              ELSE LET m == CHOOSE x \in S : \A y \in S : x <= y IN <<m>> \o AscSeq(S \ {m})
 SeqsUpTo(S, n) == UNION {[1..k -> S] : k \in 1..n}
 
 (* ================================================================================================================ *)
@@ -54,7 +54,7 @@ ValueSeq == <<"short", "multiline", "tabs", "nested", "number", "bool", "null", 
 
 (* An abstract message: which "first" fields it has, and a function  name slot -> value class  for the others.      *)
 NameSets == {S \in SUBSET NameIds : Cardinality(S) <= MaxExtra}
-Rot(S, k) == LET s == SortSeq(S) IN [n \in S |-> ValueSeq[((k + (CHOOSE i \in DOMAIN s : s[i] = n)) % 8) + 1]]
+Rot(S, k) == LET s == AscSeq(S) IN [n \in S |-> ValueSeq[((k + (CHOOSE i \in DOMAIN s : s[i] = n)) % 8) + 1]]
 ExtrasOver(S) == IF Cardinality(S) = 3 /\ TripleMode = "rot"
                  THEN {f \in {Rot(S, k) : k \in 0..7} : \A n \in S : f[n] \in ValueClasses}
                  ELSE [S -> ValueClasses]
@@ -62,7 +62,7 @@ Messages == {[first |-> F, extras |-> E] : F \in SUBSET Range(FirstOrder), E \in
 
 (* The layout rule, common to both formats:  header ; first fields present ; every remaining field, sorted by name.  *)
 FirstOf(m) == SelectSeq(FirstOrder, LAMBDA f : f \in m.first)
-RestOf(m)  == SortSeq(DOMAIN m.extras)
+RestOf(m)  == AscSeq(DOMAIN m.extras)
 Layout(m)  == [header |-> HeaderOrder, first |-> FirstOf(m), rest |-> RestOf(m)]
 
 (* How a value is shown.  compact: always the JSON encoding (json.loads gives the value back).  pretty: pprint, with *)
@@ -117,7 +117,7 @@ PPStep == /\ Part = "pp" /\ ~done /\ pos < Len(case.stream)
           /\ out' = Append(out, BlockFor(case.stream[pos + 1]))      \* whatever the line was, one block ...
           /\ pos' = pos + 1 /\ UNCHANGED <<case, done>>              \* ... and on to the next line
 PPEnd  == /\ Part = "pp" /\ ~done /\ pos = Len(case.stream)
-          /\ PrintT(<<"PP", case.fmt, case.stream, out>>)
+          /\ PrintT(ToString(<<"PP", case.fmt, case.stream, out>>))
           /\ done' = TRUE /\ UNCHANGED <<case, pos, out>>            \* end of input: exit status 0
 
 INV_PP == Part = "pp" =>
@@ -156,7 +156,7 @@ FStep == /\ Part = "filter" /\ ~done /\ pos < Len(case.stream)
             out' = IF v = "SKIP" THEN out ELSE Append(out, <<pos + 1, v>>)   \* written: (which line, which value)
          /\ pos' = pos + 1 /\ UNCHANGED <<case, done>>
 FEnd  == /\ Part = "filter" /\ ~done /\ pos = Len(case.stream)
-         /\ PrintT(<<"FILT", case.expr, [i \in DOMAIN case.stream |-> <<case.stream[i].sel, case.stream[i].fld>>], out>>)
+         /\ PrintT(ToString(<<"FILT", case.expr, [i \in DOMAIN case.stream |-> <<case.stream[i].sel, case.stream[i].fld>>], out>>))
          /\ done' = TRUE /\ UNCHANGED <<case, pos, out>>
 
 Skipped(e, s, n) == {i \in 1..n : Eval(e, s[i]) = "SKIP"}
@@ -171,7 +171,7 @@ INV_Filter == Part = "filter" =>
 
 (* ================================================================================================================ *)
 LayoutStep == /\ Part = "layout" /\ ~done
-              /\ PrintT(LayoutRecord(case))
+              /\ PrintT(ToString(LayoutRecord(case)))
               /\ out' = Layout(case) /\ done' = TRUE /\ UNCHANGED <<case, pos>>
 
 INV_Layout == Part = "layout" =>
